@@ -349,3 +349,239 @@ func matchKeysCheckedWhereverCollected(w *World, r *Report, prop string) {
 		r.pass(rule, key, pos, fmt.Sprintf("every field collector (%d) reaches the check", len(cols)))
 	}
 }
+
+// C09/optional-parts-independent: two parts of a declaration that the grammar lets the author leave out independently of each
+// other are printed independently of each other.
+//
+// `objectField: REPEAT? ftype=IDENTIFIER fname=IDENTIFIER? STRING_LITERAL?` - a field may have a name of its own, a documentation
+// string, both or neither. A formatter routine (or a helper it hands the two parts to) that reads the documentation string only on
+// paths on which the name is known to be present - `if name == nil { return typeName }` ahead of `if doc != nil { .. }` - deletes
+// the documentation of every field that has none of its own name. Which parts are independent is read from the grammar: the
+// elements with a `?` of their own at the top level of one alternative. Decided per routine and ordered pair (X, Y) of such parts
+// of one parse-tree node: of the places where the routine uses X (other than asking whether it is there), at least one stays
+// reachable when every "Y is present" edge is taken away; the same inside a helper that receives both parts as parameters.
+func optionalPartsIndependent(w *World, r *Report, prop string, ctxs map[string]*CtxInfo, fns []*ssa.Function) {
+	rule := prop + "/optional-parts-independent"
+	// independent optional children per context type: names as accInfo.What spells them (child, or label=)
+	indep := map[string]map[string]bool{}
+	for _, ci := range ctxs {
+		pr := w.G4.prule[ci.Rule]
+		if pr == nil {
+			continue
+		}
+		var alt *Alt
+		for _, a := range pr.Alts {
+			if a.Label != "" && title(a.Label)+"Context" == ci.CtxType {
+				alt = a
+			}
+		}
+		if alt == nil && ci.AltLabel == "" && len(pr.Alts) == 1 {
+			alt = pr.Alts[0]
+		}
+		if alt == nil {
+			continue
+		}
+		set := map[string]bool{}
+		cnt := map[string]int{}
+		for _, e := range alt.Elems {
+			if e.Kind == ekToken || e.Kind == ekRule {
+				cnt[e.Name]++
+			}
+		}
+		for _, e := range alt.Elems {
+			// `(fname = IDENTIFIER)?`: a group of one element with a `?` of its own is that element
+			if e.Kind == ekGroup && e.Suffix == '?' && len(e.Group) == 1 && len(e.Group[0].Elems) == 1 && e.Group[0].Elems[0].Suffix == 0 {
+				inner := *e.Group[0].Elems[0]
+				inner.Suffix = '?'
+				e = &inner
+			}
+			if e.Suffix != '?' || (e.Kind != ekToken && e.Kind != ekRule) {
+				continue
+			}
+			if e.Label != "" {
+				set[e.Label+"="] = true
+			} else if cnt[e.Name] == 1 {
+				set[e.Name] = true
+			}
+		}
+		if len(set) >= 2 {
+			indep[ci.CtxType] = set
+		}
+	}
+	type acc struct {
+		call *ssa.Call
+		ctx  string
+		what string
+		path string
+	}
+	usesOf := func(v ssa.Value) []ssa.Instruction {
+		var out []ssa.Instruction
+		seen := map[ssa.Value]bool{}
+		var walk func(x ssa.Value)
+		walk = func(x ssa.Value) {
+			if seen[x] || x.Referrers() == nil {
+				return
+			}
+			seen[x] = true
+			for _, ref := range *x.Referrers() {
+				switch y := ref.(type) {
+				case *ssa.DebugRef:
+				case *ssa.BinOp:
+					if isNilConst(y.X) || isNilConst(y.Y) {
+						continue
+					}
+					out = append(out, y)
+				case *ssa.ChangeInterface:
+					walk(y)
+				case *ssa.MakeInterface:
+					walk(y)
+				case *ssa.ChangeType:
+					walk(y)
+				case *ssa.Phi:
+					walk(y)
+				default:
+					out = append(out, ref)
+				}
+			}
+		}
+		walk(v)
+		return out
+	}
+	// reachable blocks of fn when the "present" edge of every nil test of a value isY recognises is removed
+	reachWithout := func(fn *ssa.Function, isY func(v ssa.Value) bool) map[*ssa.BasicBlock]bool {
+		seen := map[*ssa.BasicBlock]bool{}
+		var walk func(b *ssa.BasicBlock)
+		walk = func(b *ssa.BasicBlock) {
+			if seen[b] {
+				return
+			}
+			seen[b] = true
+			skip := -1
+			if cond := branchCond(b); cond != nil {
+				if x, nn, ok := nilTest(cond); ok && isY(stripIdentity(x)) {
+					skip = nn
+				}
+			}
+			for i, s := range b.Succs {
+				if i != skip {
+					walk(s)
+				}
+			}
+		}
+		if len(fn.Blocks) > 0 {
+			walk(fn.Blocks[0])
+		}
+		return seen
+	}
+	n := 0
+	reported := map[string]bool{}
+	judge := func(fn *ssa.Function, uses []ssa.Instruction, isY func(v ssa.Value) bool, key, pos, xName, yName string) {
+		if len(uses) == 0 || reported[key] {
+			return
+		}
+		reported[key] = true
+		n++
+		all := reachWithout(fn, func(ssa.Value) bool { return false })
+		cut := reachWithout(fn, isY)
+		live, stays := false, false
+		for _, u := range uses {
+			if all[u.Block()] {
+				live = true
+			}
+			if cut[u.Block()] {
+				stays = true
+			}
+		}
+		if !live || stays {
+			r.pass(rule, key, pos, "")
+			return
+		}
+		r.fail(rule, key, pos, fmt.Sprintf("every place where %s uses %s lies behind an edge on which %s is present: the grammar lets the author write %s without %s, and what was written there is then not printed", fnKey(fn), xName, yName, xName, yName))
+	}
+	for _, fn := range fns {
+		// the optional accessor calls of fn, by node
+		var accs []acc
+		forEachInstr(fn, func(_ *ssa.BasicBlock, ins ssa.Instruction) {
+			c, ok := ins.(*ssa.Call)
+			if !ok {
+				return
+			}
+			recv, ai, ok := w.accessorOf(c, ctxs)
+			if !ok || !ai.Known || !ai.Optional || indep[ai.Ctx] == nil || !indep[ai.Ctx][ai.What] {
+				return
+			}
+			accs = append(accs, acc{c, ai.Ctx, ai.What, w.accessPath(recv, ctxs, 0)})
+		})
+		// form A: inside fn
+		for _, x := range accs {
+			for _, y := range accs {
+				if x.ctx != y.ctx || x.path != y.path || x.what == y.what {
+					continue
+				}
+				var uses []ssa.Instruction
+				for _, x2 := range accs {
+					if x2.ctx == x.ctx && x2.path == x.path && x2.what == x.what {
+						uses = append(uses, usesOf(x2.call)...)
+					}
+				}
+				isY := func(v ssa.Value) bool {
+					c, ok := v.(*ssa.Call)
+					if !ok {
+						return false
+					}
+					for _, y2 := range accs {
+						if y2.call == c && y2.ctx == y.ctx && y2.path == y.path && y2.what == y.what {
+							return true
+						}
+					}
+					return false
+				}
+				key := fmt.Sprintf("%s: %s.%s is printed whether or not %s is there", fnKey(fn), x.ctx, strings.TrimSuffix(x.what, "="), strings.TrimSuffix(y.what, "="))
+				judge(fn, uses, isY, key, w.instrPos(x.call), strings.TrimSuffix(x.what, "="), strings.TrimSuffix(y.what, "="))
+			}
+		}
+		// form B: a helper that is handed two independent parts of one node
+		forEachInstr(fn, func(_ *ssa.BasicBlock, ins ssa.Instruction) {
+			c, ok := ins.(ssa.CallInstruction)
+			if !ok {
+				return
+			}
+			h := c.Common().StaticCallee()
+			if h == nil || h.Blocks == nil || !w.isSubjectFunc(h) {
+				return
+			}
+			args := c.Common().Args
+			if len(args) != len(h.Params) {
+				return
+			}
+			type pa struct {
+				idx int
+				a   acc
+			}
+			var ps []pa
+			for i, a := range args {
+				ac, ok := stripIdentity(a).(*ssa.Call)
+				if !ok {
+					continue
+				}
+				for _, x := range accs {
+					if x.call == ac {
+						ps = append(ps, pa{i, x})
+					}
+				}
+			}
+			for _, px := range ps {
+				for _, py := range ps {
+					if px.idx == py.idx || px.a.ctx != py.a.ctx || px.a.path != py.a.path || px.a.what == py.a.what {
+						continue
+					}
+					q := h.Params[py.idx]
+					isY := func(v ssa.Value) bool { return v == ssa.Value(q) }
+					key := fmt.Sprintf("%s (for %s): %s.%s is printed whether or not %s is there", fnKey(h), fnKey(fn), px.a.ctx, strings.TrimSuffix(px.a.what, "="), strings.TrimSuffix(py.a.what, "="))
+					judge(h, usesOf(h.Params[px.idx]), isY, key, w.instrPos(ins), strings.TrimSuffix(px.a.what, "="), strings.TrimSuffix(py.a.what, "="))
+				}
+			}
+		})
+	}
+	r.note("%s: pairs of independent optional parts examined: %d", rule, n)
+}
